@@ -113,7 +113,12 @@ type Exec struct {
 
 	Models map[string]ModelFn
 	fninfo map[*ssa.Function]*fnInfo
+	pdoms  map[*ssa.Function]map[*ssa.BasicBlock]*ssa.BasicBlock
+	lazyCache map[*ssa.BasicBlock]bool
 	allowInit func(string) bool
+	bootMaxObj int
+	sprintfCount int
+	globalSet  map[int]bool
 
 	// configuration
 	MaxSteps    int
@@ -121,6 +126,8 @@ type Exec struct {
 	MaxPaths    int
 	AllowPanic  bool
 	NoMerge     bool
+	NoLazy      bool
+	LazyForks   int
 	Trace       bool
 	ReplaceByGo map[string]string // callee full name -> harness-package function
 
@@ -156,9 +163,9 @@ type Alt struct {
 func NewExec(prog *ssa.Program, ctx *Ctx, solver *Solver) *Exec {
 	ex := &Exec{Ctx: ctx, Solver: solver, Prog: prog, Sizes: types.SizesFor("gc", "amd64"),
 		globals: map[*ssa.Global]int{}, initDone: map[*ssa.Package]bool{}, suspect: map[*ssa.Package]string{},
-		Models: map[string]ModelFn{}, fninfo: map[*ssa.Function]*fnInfo{},
+		Models: map[string]ModelFn{}, fninfo: map[*ssa.Function]*fnInfo{}, pdoms: map[*ssa.Function]map[*ssa.BasicBlock]*ssa.BasicBlock{}, lazyCache: map[*ssa.BasicBlock]bool{},
 		MaxSteps: 50_000_000, MaxVisits: 200_000, MaxPaths: 200_000,
-		ReplaceByGo: map[string]string{}, axiomsAdded: map[string]bool{},
+		ReplaceByGo: map[string]string{}, axiomsAdded: map[string]bool{}, globalSet: map[int]bool{},
 	}
 	ex.nextObj = 1
 	ex.Boot = &State{Heap: map[int]*Object{}, SymCount: map[string]int{}, Lenient: true}
@@ -587,6 +594,7 @@ func (ex *Exec) globalObj(s *State, g *ssa.Global) int {
 		id = ex.nextObj
 		ex.nextObj++
 		ex.globals[g] = id
+		ex.globalSet[id] = true
 	}
 	et := g.Type().(*types.Pointer).Elem()
 	s.Heap[id] = &Object{V: ex.zero(et), Owner: s.Epoch, Type: et}
@@ -599,6 +607,7 @@ func (ex *Exec) globalObj(s *State, g *ssa.Global) int {
 // of the boot state and explores all paths.
 func (ex *Exec) RunHarness(fn *ssa.Function, args []Value) {
 	ex.resetRun()
+	ex.bootMaxObj = ex.nextObj - 1
 	s := ex.clone(ex.Boot)
 	s.Lenient = false
 	fr := ex.newFrame(fn, args, nil)
@@ -626,6 +635,12 @@ func (ex *Exec) newFrame(fn *ssa.Function, args []Value, bind []Value) *Frame {
 }
 
 func (ex *Exec) finish(s *State) {
+	if (s.Status == Panicked || s.Status == Errored) && !s.Lenient {
+		// lazily explored arms may be infeasible
+		if ex.checkSat(s) == Unsat {
+			s.Status = Infeasible
+		}
+	}
 	switch s.Status {
 	case Done:
 		ex.PathsDone++
@@ -940,7 +955,16 @@ func (ex *Exec) exec(s *State, fr *Frame, in ssa.Instruction) ([]*State, *stopPo
 		}
 		cond := cv.(*Term)
 		blk := fr.Block
-		ts, fs := ex.branch(s, cond)
+		var ts, fs *State
+		if !cond.IsConst() && !ex.NoLazy && !s.Lenient && ex.lazyDiamond(blk) {
+			ex.LazyForks++
+			fs = ex.clone(s)
+			ts = s
+			ts.PC = append(ts.PC, cond)
+			fs.PC = append(fs.PC, ex.Ctx.BNot(cond))
+		} else {
+			ts, fs = ex.branch(s, cond)
+		}
 		var out []*State
 		if ts != nil {
 			if err := ex.jump(ts, ts.top(), blk.Succs[0]); err != nil {
